@@ -7,7 +7,7 @@ import types
 from collections import deque
 from heapq import heappop, heappush
 from inspect import isfunction
-from itertools import chain
+from itertools import chain, count
 from multiprocessing import Process, current_process
 from operator import attrgetter
 from os import getpid, kill
@@ -117,6 +117,11 @@ class _State:
         self.tick_handler = None
 
 
+# Orders events of equal priority by the time they were fired, across all
+# queues: queues are merged when a component is registered.
+_sequence = count()
+
+
 class _EventQueue:
     __slots__ = ('_counter', '_flush_batch', '_priority_queue', '_queue')
 
@@ -136,7 +141,7 @@ class _EventQueue:
         assert not len(other_queue._priority_queue)
 
     def append(self, event, channel, priority):
-        self._counter += 1
+        self._counter = next(_sequence)
         self._queue.append((priority, self._counter, (event, channel)))
 
     def dispatchEvents(self, dispatcher):
